@@ -18,7 +18,10 @@ of `mask` (valIdx 0 = absent) is the answer; unknown ids/values answer false; th
                                        subscriber can be sent, `|`-separated, sorted
 ops: `add:i:v` `upd:i:v` `ups:i:v` `del:i`; times are dropped from `pull`/`burst` answers (`0`).
 `delc:i:v:k` is `Delete(i, WithExpectedCheck(cb))` whose callback, on its first `k` invocations, writes
-to the collection itself: `Update(i, v)`, or `Delete(i)` when `v` is `-` (`Act.deleteRetry`).  A write
+to the collection itself: `Update(i, v)`, or `Delete(i)` when `v` is `-` (`Act.deleteRetry`); `delv:i:w` is
+`Delete(i, WithExpectedValue(w))`, `dela:i` is `Delete(i, WithAllowMissing(true))`; `addc/updc/upsc:i:v:w`
+is `Add` / `Update` / `Update(WithCreateIfAbsent)` of `i` to `v` whose check callback first upserts `i`
+to `w` (`Act.writeRetry`; the token `e`, resp. `__`, is the empty message).  A write
 that publishes several events answers them `;`-separated.
 `pull:keep1` / `pull:keep2` (and `burst:…`) add a read mask: messages are two-field tokens `ab`, the
 mask keeps the first resp. second field and the stripped one reads `_`.
@@ -28,7 +31,7 @@ masked old/new after include) and `WithUpdatesOnly` (no seed).
                                        it is: `locked = true`): the first `nBefore` tokens are writes building the
                                        initial contents, the rest is a schedule of steps `c=<op>` (commit),
                                        `p` (publish), `d=<id>` (deleteNow), `s` (snapshot), `l` (listen) →
-                                       `seed=<seed events> recv=<include-filtered received events> list=<List(WithInclude)> pend=<0|1> sub=<idle|snap|listen>`
+                                       `seed=<seed events> recv=<include-filtered received events> list=<List(WithInclude)> pend=<number pending> sub=<idle|snap|listen>`
 * `bpull <q> <nBefore> <op>*`          as `pull`, with the booking server's include option (`bookingInclude`,
                                        `ScVerif/C08/Booking.lean`): message tokens are booked periods `s/e`
                                        (`-` = unbounded side, seconds) or `nil` (no booked period); `<q>` is the
@@ -74,7 +77,22 @@ def parseAct? (s : String) : Option (Act String String) :=
   | ["delc", i, v, k] =>
     if i = "" ∨ v = "" then none else do
       let k ← parseNat? k
-      pure (.deleteRetry i (List.replicate k [if v = "-" then Op.delete i else Op.update i v]))
+      pure (.deleteRetry i (List.replicate k [if v = "-" then Op.delete i else Op.update i v]) (fun _ _ => true))
+  | [k, i, v, w] =>
+    -- `addc/updc/upsc:i:v:w`: Add / Update / Update(WithCreateIfAbsent) of `i` to `v` whose check callback
+    -- first upserts `i` itself to `w`; the empty message is the token `e` (`__` for two-field messages)
+    if i = "" ∨ v = "" ∨ w = "" then none else
+    let empty := if v.length = 2 then "__" else "e"
+    if k = "addc" then some (.writeRetry i v true true [.upsert i w] empty)
+    else if k = "updc" then some (.writeRetry i v false false [.upsert i w] empty)
+    else if k = "upsc" then some (.writeRetry i v true false [.upsert i w] empty)
+    else none
+  | ["delv", i, w] =>
+    -- `Delete(i, WithExpectedValue(w))`
+    if i = "" ∨ w = "" then none else some (.deleteRetry i [] (fun _ o => o == w))
+  | ["dela", i] =>
+    -- `Delete(i, WithAllowMissing(true))`: same events as a plain delete (a missing item is not an error)
+    if i = "" then none else some (.deleteRetry i [] (fun _ _ => true))
   | _ => (parseOp? s).map Act.op
 
 /-- insertion sort by id: `sort.Slice(currentValues, id <)` (ids are distinct) -/
@@ -137,7 +155,7 @@ def pullAfter (p : Option (Pred String String)) (o : PullOpts) (items : List (St
   | a :: as =>
     let r := stepAct 0 items a
     let ev := match r.2 with
-      | [] => (match a with | .op _ => "fail" | .deleteRetry _ _ => "drop")  -- a re-entrant delete's result is not part of the answer
+      | [] => (match a with | .op _ => "fail" | _ => "drop")  -- a re-entrant delete's result is not part of the answer
       | evs =>
         match evs.filterMap (fun c => (pullStep p o.proj o.equiv c).map zeroTime) with
         | [] => "drop"
@@ -202,7 +220,7 @@ def handleSched? (p n : String) (toks : List String) : Option String := do
     "seed=" ++ showChanges (seedFrom 0 (sortById seed)),
     "recv=" ++ showChanges ((recv.filterMap (includeChange p)).map zeroTime),
     "list=" ++ listOf p id s.items,
-    "pend=" ++ (if s.pend.isSome then "1" else "0"),
+    "pend=" ++ toString s.pend.length,
     "sub=" ++ sub])
 
 def handle? (toks : List String) : Option String :=
